@@ -14,6 +14,7 @@ CONSTANTS
     IdentityEvict = TRUE
     CloseReleasesBlob = TRUE
     CloseFiles = TRUE
+    StampOnlyOnSuccess = TRUE
 INIT GenInit
 NEXT GenNext
 VIEW core
